@@ -176,12 +176,27 @@ class Trivia:
         return out
 
 
-def render(tree, rng, style):
-    """-> (text, spans) — spans get .start/.end as BYTE offsets of the text."""
+# scalars that editors / copy-paste put into source files: a byte order mark, blanks that are
+# Unicode White_Space but not ASCII, a zero width space.  Whatever the tool does with them
+# (reject at a valid location, or accept) every label must be a position of the ORIGINAL bytes.
+EXOTIC = {
+    "bom": "\ufeff", "nbsp": "\u00a0", "ls": "\u2028", "zwsp": "\u200b", "ideographic": "\u3000",
+    "emspace": "\u2003", "nel": "\u0085",
+}
+EXOTIC_KINDS = ["bom0", "bom0", "bom0", "bom0_crlf", "bom0_lib", "nbsp0", "ls0", "zwsp0", "ideographic0",
+                "nbsp_mid", "ls_mid", "zwsp_mid", "bom_mid", "ideographic_mid", "emspace_mid", "nel_mid"]
+
+
+def render(tree, rng, style, prefix="", mid=None):
+    """-> (text, spans) — spans get .start/.end as BYTE offsets of the text.  `prefix` is put at
+    offset 0 of the file; `mid` (a scalar) is put once into the trivia between two tokens."""
     ev = flatten(tree, [])
     tv = Trivia(rng, style)
-    out = []
-    pos = 0          # byte position
+    ntok = sum(1 for k, _ in ev if k == "tok")
+    mid_at = rng.randrange(1, max(2, ntok)) if mid else None
+    itok = 0
+    out = [prefix]
+    pos = len(prefix.encode())          # byte position
     prev = None
     pending = []
     spans = []
@@ -199,6 +214,10 @@ def render(tree, rng, style):
         else:
             want_nl = prev is not None and (prev in (";", "{", "}") and rng.random() < 0.7) and style != "tight"
             t = tv.between(prev, x, want_nl)
+            if mid_at is not None and itok == mid_at:
+                k = rng.randrange(len(t) + 1)
+                t = t[:k] + mid + t[k:] if not t.lstrip(" \t\r\n") else t + mid + " "
+            itok += 1
             out.append(t)
             pos += len(t.encode())
             for sp in pending:
@@ -736,6 +755,7 @@ def gen_project(rng, idx):
         inject = "duplicate_def"
     elif r < 0.35:
         inject = "truncated"
+    exotic = rng.choice(EXOTIC_KINDS) if (inject is None and rng.random() < 0.22) else None
     files = {}
     spans = {}
     stats = {}
@@ -744,7 +764,7 @@ def gen_project(rng, idx):
     if with_lib:
         lib_style = rng.choice(STYLES)
         tree, _ = gen_file_tree(g, rng, rng.choice([1, 2]), with_pragma=rng.random() < 0.8, with_main=False)
-        text, sp, st = render(tree, rng, lib_style)
+        text, sp, st = render(tree, rng, lib_style, prefix=EXOTIC["bom"] if exotic == "bom0_lib" else "")
         files["lib.circom"] = text
         spans["lib.circom"] = sp
         includes.append("lib.circom")
@@ -761,7 +781,16 @@ def gen_project(rng, idx):
         bad = rng.choice(["@", "#", "`"]) if inject == "invalid_token" else rng.choice([")", "]", "template", "===", "<--", "}"])
         marker = S("injected", (), Tok(bad), bad=bad)
         tree = insert_token(tree, at, marker)
-    text, sp, st = render(tree, rng, style)
+    prefix, mid = "", None
+    if exotic and exotic.endswith("_mid"):
+        mid = EXOTIC[exotic[:-4]]
+    elif exotic == "bom0_crlf":
+        prefix = EXOTIC["bom"] + "\r\n"
+    elif exotic and exotic != "bom0_lib":
+        prefix = EXOTIC[exotic[:-1]]
+    if exotic:
+        g.features.add("exotic-" + exotic)
+    text, sp, st = render(tree, rng, style, prefix=prefix, mid=mid)
     if inject == "unclosed_comment":
         text, expect = lexical_injection(text, rng, inject)
     if inject == "truncated":
@@ -779,7 +808,7 @@ def gen_project(rng, idx):
     for k, v in st.items():
         stats[k] = stats.get(k, 0) + v
     return {"idx": idx, "files": files, "argv": ["main.circom"], "spans": spans, "style": style,
-            "features": sorted(g.features), "inject": inject, "expect": expect, "trivia": stats}
+            "features": sorted(g.features), "inject": inject, "exotic": exotic, "expect": expect, "trivia": stats}
 
 
 def insert_token(tree, at, marker):
